@@ -33,6 +33,7 @@ import (
 //
 // c18.wrap    blocks  path  ae  innerhdr  body  plen  ops  ret      (scripted inner handler)
 // c18.static  blocks  path  ae  siblings  content  plens            (real staticfiles.FileServer on a temp dir)
+//   ret = <status>: the handler returns (status, nil); <status>e: it returns (status, non-nil error)
 //
 // Codecs: a gzip layer is real (compress/gzip); zstd and br layers of pre-encoded bodies and of
 // sibling files are framed markers (casket never decodes them, it only relays the bytes).
@@ -223,7 +224,30 @@ func c18Run(mids []httpserver.Middleware, inner httpserver.Handler, path, ae str
 func c18IsBodyOp(o string) bool { return o == "w" || o == "c" || o == "s" }
 
 // c18Inner builds the scripted handler.
-func c18Inner(hp []string, phys []byte, ops []string, ret int) httpserver.Handler {
+// c18Ret parses the ret field: "<status>" = the handler returns (status, nil); "<status>e" = it
+// returns (status, non-nil error) -- e.g. status 0 with an error after the complete body, which is
+// what fastcgi returns when the backend also wrote to stderr, or a proxy reporting a late error
+// for the log.
+func c18Ret(s string) (ret int, herr bool, ok bool) {
+	if strings.HasSuffix(s, "e") {
+		herr = true
+		s = s[:len(s)-1]
+	}
+	n, err := strconv.Atoi(s)
+	if err != nil || n < 0 {
+		return 0, false, false
+	}
+	return n, herr, true
+}
+
+func c18RetField(ret int, herr bool) string {
+	if herr {
+		return strconv.Itoa(ret) + "e"
+	}
+	return strconv.Itoa(ret)
+}
+
+func c18Inner(hp []string, phys []byte, ops []string, ret int, herr bool) httpserver.Handler {
 	nw := 0
 	for _, o := range ops {
 		if c18IsBodyOp(o) {
@@ -275,8 +299,8 @@ func c18Inner(hp []string, phys []byte, ops []string, ret int) httpserver.Handle
 				w.WriteHeader(code)
 			}
 		}
-		if ret >= 500 {
-			return ret, errors.New("inner failed")
+		if herr {
+			return ret, errors.New("inner failed (reported for the log)")
 		}
 		return ret, nil
 	})
@@ -312,8 +336,11 @@ func c18WrapEval(f []string) (string, []string) {
 			nw++
 		}
 	}
-	ret, _ := strconv.Atoi(f[7])
-	mk := func() httpserver.Handler { return c18Inner(hp, phys, ops, ret) }
+	ret, herr, ok := c18Ret(f[7])
+	if !ok {
+		return "bad-case", nil
+	}
+	mk := func() httpserver.Handler { return c18Inner(hp, phys, ops, ret, herr) }
 	g := c18Run(mids, mk(), path, ae)
 	p := c18Run(nil, mk(), path, ae)
 	tags := []string{}
@@ -337,6 +364,12 @@ func c18WrapEval(f []string) (string, []string) {
 	}
 	if strings.Contains(f[6], "c") || strings.Contains(f[6], "s") {
 		tags = append(tags, "copy-or-writestring")
+	}
+	if herr {
+		tags = append(tags, "handler-error")
+		if nw > 0 && ret < 400 {
+			tags = append(tags, "error-after-body")
+		}
 	}
 	return g + "\t" + p, tags
 }
@@ -407,10 +440,16 @@ func c18LiveEval(f []string) (string, []string) {
 	if f[6] != "" {
 		ops = strings.Split(f[6], ",")
 	}
-	ret, _ := strconv.Atoi(f[7])
-	g := c18LiveRun(mids, c18Inner(hp, phys, ops, ret), path, ae)
-	p := c18LiveRun(nil, c18Inner(hp, phys, ops, ret), path, ae)
+	ret, herr, ok := c18Ret(f[7])
+	if !ok {
+		return "bad-case", nil
+	}
+	g := c18LiveRun(mids, c18Inner(hp, phys, ops, ret, herr), path, ae)
+	p := c18LiveRun(nil, c18Inner(hp, phys, ops, ret, herr), path, ae)
 	tags := []string{"live"}
+	if herr {
+		tags = append(tags, "handler-error")
+	}
 	if strings.Split(g, " ")[1] != strings.Split(p, " ")[1] {
 		tags = append(tags, "compressed")
 	} else {
@@ -508,13 +547,16 @@ func c18BodilessEval(f []string) (string, []string) {
 	if f[6] != "" {
 		ops = strings.Split(f[6], ",")
 	}
-	ret, _ := strconv.Atoi(f[7])
+	ret, herr, ok := c18Ret(f[7])
+	if !ok {
+		return "bad-case", nil
+	}
 	method := f[8]
-	g, gh := c18WireRun(mids, c18Inner(hp, phys, ops, ret), method, path, ae)
-	p, _ := c18WireRun(nil, c18Inner(hp, phys, ops, ret), method, path, ae)
+	g, gh := c18WireRun(mids, c18Inner(hp, phys, ops, ret, herr), method, path, ae)
+	p, _ := c18WireRun(nil, c18Inner(hp, phys, ops, ret, herr), method, path, ae)
 	head := "-"
 	if method == "HEAD" {
-		_, gg := c18WireRun(mids, c18Inner(hp, phys, ops, ret), "GET", path, ae)
+		_, gg := c18WireRun(mids, c18Inner(hp, phys, ops, ret, herr), "GET", path, ae)
 		var diff []string
 		for _, k := range []string{"Content-Encoding", "Vary", "Etag", "Content-Type"} { // Content-Length: net/http computes it differently for HEAD
 			if strings.Join(gh.Values(k), ",") != strings.Join(gg.Values(k), ",") {
@@ -546,6 +588,9 @@ func c18BodilessGen(g *hx.Gen) {
 									cls = strconv.Itoa(plen)
 								}
 								g.Case(bl, hx.HS("/a.txt"), hx.HS(ae), hx.HS(ce.hdr)+"|"+cls+"|0|"+etag, term, strconv.Itoa(plen), ops, "0", method)
+								if etag == "s" && ae == "gzip" && ops != "" {
+									g.Case(bl, hx.HS("/a.txt"), hx.HS(ae), hx.HS(ce.hdr)+"|"+cls+"|0|"+etag, term, strconv.Itoa(plen), ops, "0e", method)
+								}
 							}
 						}
 					}
@@ -561,7 +606,8 @@ func c18BodilessGen(g *hx.Gen) {
 //   One site (gzip at `level`) behind a real net/http server.  Step 1: one request whose handler
 //   behaves as `first` (its answer is not judged: some of these handlers break the handler
 //   contract): ok (writes a page) | hdr-err (WriteHeader(200) through the compressing writer, then
-//   returns 500) | write-err (writes, then returns 500) | err (returns 404 untouched) | panic-after-write.
+//   returns 500) | write-err (writes, then returns 500) | err (returns 404 untouched) |
+//   late-err (writes its page, then returns 0 and a non-nil error) | panic-after-write.
 //   Step 2: k overlapping requests; their handlers write a first piece, meet at a barrier (so every
 //   one holds its gzip writer at the same time), then write the rest.  out = k results: ok, or
 //   what is wrong with that response.  GOMAXPROCS is 1 while the case runs, so that sync.Pool
@@ -629,6 +675,9 @@ func c18PoolEval(f []string) (string, []string) {
 			return 500, errors.New("failed after writing")
 		case "err":
 			return 404, nil
+		case "late-err":
+			io.WriteString(w, "a whole page")
+			return 0, errors.New("reported after the complete body")
 		case "panic-after-write":
 			io.WriteString(w, "half a page")
 			panic("c18.pool handler panic")
@@ -703,7 +752,7 @@ func c18PoolEval(f []string) (string, []string) {
 
 func c18PoolGen(g *hx.Gen) {
 	for _, level := range []string{"", "1", "9"} {
-		for _, first := range []string{"ok", "hdr-err", "write-err", "err", "panic-after-write"} {
+		for _, first := range []string{"ok", "hdr-err", "write-err", "err", "late-err", "panic-after-write"} {
 			for _, k := range []string{"2", "3", "4"} {
 				if !g.Thorough() && level == "1" && k != "2" {
 					continue
@@ -724,8 +773,27 @@ func c18LiveGen(g *hx.Gen) {
 			for _, ret := range []int{404, 500, 0} {
 				term, plen := c18Body("", 40)
 				g.Case(c18Blocks[0], hx.HS("/a.txt"), hx.HS(ae), "|-|0|s", term, strconv.Itoa(plen), ops, strconv.Itoa(ret))
+				g.Case(c18Blocks[0], hx.HS("/a.txt"), hx.HS(ae), "|-|0|s", term, strconv.Itoa(plen), ops, c18RetField(ret, true))
 			}
 		}
+	}
+	// the handler writes its response and then returns (0 | 200, non-nil error): over a real
+	// connection the client must still receive a complete response that decodes to the same body
+	for _, ops := range c18LiveOps {
+		for _, ae := range []string{"gzip", ""} {
+			for bi, bl := range []string{c18Blocks[0], c18Blocks[4], c18Blocks[2]} {
+				for _, n := range []int{40, 1240, 5000} {
+					if !g.Thorough() && bi != 0 && n != 1240 {
+						continue
+					}
+					for _, cl := range []bool{false, true} {
+						c18WrapCaseE(g, bl, "/a.txt", ae, c18CEs[0], cl, "0", "s", n, ops, 0, true)
+					}
+				}
+			}
+		}
+		c18WrapCaseE(g, c18Blocks[0], "/a.txt", "gzip", c18CEs[2], true, "0", "s", 40, ops, 0, true)
+		c18WrapCaseE(g, c18Blocks[0], "/a.txt", "gzip", c18CEs[0], false, "0", "s", 40, ops, 200, true)
 	}
 	for _, ops := range c18LiveOps {
 		for _, ae := range []string{"gzip", "", "gzip;q=0"} {
@@ -889,6 +957,11 @@ func c18Body(wrap string, n int) (term string, plen int) {
 }
 
 func c18WrapCase(g *hx.Gen, blocks, path, ae string, ce c18CE, cl bool, vary, etag string, n int, ops string, ret int) {
+	c18WrapCaseE(g, blocks, path, ae, ce, cl, vary, etag, n, ops, ret, false)
+}
+
+// c18WrapCaseE: herr = the handler returns a non-nil error next to `ret`
+func c18WrapCaseE(g *hx.Gen, blocks, path, ae string, ce c18CE, cl bool, vary, etag string, n int, ops string, ret int, herr bool) {
 	term, plen := c18Body(ce.wrap, n)
 	cls := "-"
 	if cl {
@@ -898,7 +971,7 @@ func c18WrapCase(g *hx.Gen, blocks, path, ae string, ce c18CE, cl bool, vary, et
 	if ret >= 400 && hasOp {
 		return // a handler that wrote must not also return an error status (C12's contract)
 	}
-	g.Case(blocks, hx.HS(path), hx.HS(ae), hx.HS(ce.hdr)+"|"+cls+"|"+vary+"|"+etag, term, strconv.Itoa(plen), ops, strconv.Itoa(ret))
+	g.Case(blocks, hx.HS(path), hx.HS(ae), hx.HS(ce.hdr)+"|"+cls+"|"+vary+"|"+etag, term, strconv.Itoa(plen), ops, c18RetField(ret, herr))
 }
 
 func c18WrapGen(g *hx.Gen) {
@@ -944,6 +1017,42 @@ func c18WrapGen(g *hx.Gen) {
 			}
 		}
 	}
+	// the handler's (status, error) return: a handler that has written its body (or part of the
+	// calls) and then returns a non-nil error with a status below 400 -- fastcgi after stderr output
+	// returns (0, err) once the whole body is copied; others report a late error for the log.  The
+	// client must get what it gets without the middleware.  Also: error statuses with and without an
+	// error value for handlers that wrote nothing.
+	for _, ops := range c18Ops {
+		for _, ae := range []string{"gzip", "", "x-gzip;q=0.5, br"} {
+			for _, ce := range c18CEs[:3] {
+				for _, cl := range []bool{false, true} {
+					for _, n := range []int{0, 3, 40, 1240, 5000} {
+						for bi, bl := range []string{c18Blocks[0], c18Blocks[4], c18Blocks[2], c18Blocks[5]} {
+							if !g.Thorough() && ((n == 5000 && (bi != 0 || ae != "gzip")) || (bi == 3 && n != 40)) {
+								continue
+							}
+							type re struct {
+								ret  int
+								herr bool
+							}
+							rets := []re{{0, true}, {200, true}}
+							if ops == "" {
+								rets = []re{{0, true}, {200, true}, {302, true}, {404, true}, {500, true}, {503, false}}
+							} else if n != 40 {
+								rets = []re{{0, true}}
+							}
+							for _, r := range rets {
+								if cl && r.ret >= 400 {
+									continue
+								}
+								c18WrapCaseE(g, bl, "/a.txt", ae, ce, cl, "0", "s", n, ops, r.ret, r.herr)
+							}
+						}
+					}
+				}
+			}
+		}
+	}
 	N := 3000
 	if g.Thorough() {
 		N = 50000
@@ -972,8 +1081,9 @@ func c18WrapGen(g *hx.Gen) {
 		if g.Rng.Chance(1, 4) {
 			bl = fmt.Sprintf("%s|%s|%d|%d", hx.HS(hx.Pick(g.Rng, []string{".txt", "*", ".a"})), "", g.Rng.Intn(12), g.Rng.Intn(14)-2)
 		}
-		c18WrapCase(g, bl, hx.Pick(g.Rng, c18Paths), hx.Pick(g.Rng, c18AEs), hx.Pick(g.Rng, c18CEs), g.Rng.Bool() && ret < 400,
-			strconv.Itoa(g.Rng.Intn(2)), hx.Pick(g.Rng, []string{"-", "s", "w"}), n, ops, ret)
+		herr := g.Rng.Chance(1, 3)
+		c18WrapCaseE(g, bl, hx.Pick(g.Rng, c18Paths), hx.Pick(g.Rng, c18AEs), hx.Pick(g.Rng, c18CEs), g.Rng.Bool() && ret < 400,
+			strconv.Itoa(g.Rng.Intn(2)), hx.Pick(g.Rng, []string{"-", "s", "w"}), n, ops, ret, herr)
 	}
 }
 
